@@ -26,6 +26,7 @@ Dispatch(a, g) ==
   \/ a = "BarrierReq"   /\ BarrierReq(g.xid)
   \/ a = "Vendor"       /\ Vendor(g.xid)
   \/ a = "BadType"      /\ BadType(g.xid)
+  \/ a = "BadLen"       /\ BadLen(g.xid, LenKindOf(g.k)) /\ last'.args.cls = g.cls
   \/ a = "PacketOut"    /\ PacketOut(g.xid, g.src, g.act) /\ last'.args.slot = g.slot
   \/ a = "FlowMod"      /\ FlowMod(g.xid, g.cmd, g.f, g.buf) /\ last'.args.slot = g.slot
   \/ a = "PortMod"      /\ PortMod(g.xid, g.kind, g.p, g.dn) /\ last'.args.p = g.p
